@@ -18,6 +18,8 @@ Inductive lop :=
 | FramerReset       (* self.client.framer.resetFrame() *)
 | Connect           (* _transact: self.client.connect() *)
 | Send              (* _transact: self._send(packet) *)
+| SendB             (* the same call site on the broadcast path: nobody answers; execute() then
+                       returns the constant 'Broadcast write sent' acknowledgement *)
 | Recv              (* _transact: self._recv(...) *)
 | Process           (* framer.processIncomingPacket(response, partial(addTransaction, tid=own)) *)
 | Pickup            (* self.getTransaction(request.transaction_id) [+ the tid=0 fallback] *)
@@ -27,7 +29,7 @@ Inductive lop :=
 Definition lop_eqb (a b : lop) : bool :=
   match a, b with
   | ConnectCheck, ConnectCheck | Acquire, Acquire | Release, Release | TidAlloc, TidAlloc
-  | FramerReset, FramerReset | Connect, Connect | Send, Send | Recv, Recv | Process, Process
+  | FramerReset, FramerReset | Connect, Connect | Send, Send | SendB, SendB | Recv, Recv | Process, Process
   | Pickup, Pickup | SetState, SetState | Close, Close => true
   | _, _ => false
   end.
@@ -76,9 +78,9 @@ Record frame := { f_tid : N; f_thr : nat; f_k : nat }.   (* wire tid; the reques
 Definition frame_eqb (a b : frame) : bool :=
   N.eqb (f_tid a) (f_tid b) && Nat.eqb (f_thr a) (f_thr b) && Nat.eqb (f_k a) (f_k b).
 
-Inductive evkind := KConnect | KSend | KRecv.
+Inductive evkind := KConnect | KSend | KSendB | KRecv.
 Definition evkind_eqb (a b : evkind) : bool :=
-  match a, b with KConnect, KConnect | KSend, KSend | KRecv, KRecv => true | _, _ => false end.
+  match a, b with KConnect, KConnect | KSend, KSend | KSendB, KSendB | KRecv, KRecv => true | _, _ => false end.
 Record event := { ev_thr : nat; ev_k : nat; ev_kind : evkind }.
 Definition event_eqb (a b : event) : bool :=
   Nat.eqb (ev_thr a) (ev_thr b) && Nat.eqb (ev_k a) (ev_k b) && evkind_eqb (ev_kind a) (ev_kind b).
@@ -165,6 +167,12 @@ Definition exec_op (re : bool) (t k : nat) (s : shared) (l : local) (o : lop) : 
                sh_peer := sh_peer s ++ [{| f_tid := lo_tid l; f_thr := t; f_k := k |}];
                sh_log := sh_log s ++ [mk_event t k KSend] |},
             {| lo_tid := lo_tid l; lo_resp := lo_resp l; lo_result := lo_result l; lo_inflight := true |})
+  | SendB =>
+      (* the acknowledgement is modelled as a pseudo-reply that names the call's own request *)
+      Some ({| sh_lock := sh_lock s; sh_tidc := sh_tidc s; sh_table := sh_table s; sh_fbuf := sh_fbuf s;
+               sh_peer := sh_peer s; sh_log := sh_log s ++ [mk_event t k KSendB] |},
+            {| lo_tid := lo_tid l; lo_resp := lo_resp l;
+               lo_result := Some {| f_tid := lo_tid l; f_thr := t; f_k := k |}; lo_inflight := lo_inflight l |})
   | Recv =>
       Some ({| sh_lock := sh_lock s; sh_tidc := sh_tidc s; sh_table := sh_table s; sh_fbuf := sh_fbuf s;
                sh_peer := tl (sh_peer s); sh_log := sh_log s ++ [mk_event t k KRecv] |},
@@ -262,6 +270,7 @@ Fixpoint proj (ops : list lop) : list evkind :=
   | [] => []
   | Connect :: r => KConnect :: proj r
   | Send :: r => KSend :: proj r
+  | SendB :: r => KSendB :: proj r
   | Recv :: r => KRecv :: proj r
   | _ :: r => proj r
   end.
